@@ -271,7 +271,7 @@ impl Engine<'_> {
             return Ok(());
         }
         if gs.zp1.is_twilight() {
-            *gs.zp1_mut().point_mut(point_ix)? = gs.zp0().original(gs.rp0)?;
+            *gs.zp1_mut().original_mut(point_ix)? = gs.zp0().original(gs.rp0)?;
             gs.move_original(gs.zp1, point_ix, distance)?;
             *gs.zp1_mut().point_mut(point_ix)? = gs.zp1().original(point_ix)?;
         }
@@ -522,8 +522,8 @@ impl Engine<'_> {
                 let d = cvt_distance.to_bits();
                 let p2 = gs.zp0().original(gs.rp0)?;
                 let p1 = gs.zp1_mut().original_mut(p)?;
-                p1.x = p2.x + F26Dot6::from_bits(math::mul(d, fv.x));
-                p1.y = p2.y + F26Dot6::from_bits(math::mul(d, fv.y));
+                p1.x = p2.x + F26Dot6::from_bits(math::mul14(d, fv.x));
+                p1.y = p2.y + F26Dot6::from_bits(math::mul14(d, fv.y));
                 *p1
             };
             *gs.zp1_mut().point_mut(p)? = point;
